@@ -158,6 +158,24 @@ def _conds(tier, seed):
     return out
 
 
+def body_tile_shuffle(backing, n, reps, *r):
+    """tile(r, shuffle=True) equals the concatenation of r one-time shuffles drawn from the same generator state (the documented meaning of
+    the flag); both sides run under an equally seeded stand-in for the global numpy generator"""
+    vals = list(range(n))
+    mk = (lambda: ListDataset(list(vals))) if backing == 'list' else (lambda: DictDataset({rt.KEYS[j]: v for j, v in enumerate(vals)}))
+    with rt.global_rng(rt.Rng(sel=list(r))):
+        lhs_ds = mk().tile(reps, shuffle=True)
+        lhs = list(lhs_ds)
+        lhs_len = len(lhs_ds)
+    with rt.global_rng(rt.Rng(sel=list(r))):
+        src = mk()
+        parts = [src.shuffle() for _ in range(reps)]
+        rhs_ds = parts[0] if reps == 1 else lazy_dataset.concatenate(*parts)
+        rhs = list(rhs_ds)
+    rt.reached()
+    return lhs == rhs and lhs_len == n * reps
+
+
 def body_slice_compose(backing, n, f1, f2, x0, x1, x2, x3, a, b, c, d, i):
     """ds[s1][s2] equals the elementary composition of the two selections"""
     vals = rt.mk(n, [x0, x1, x2, x3])
@@ -205,6 +223,9 @@ def _sc_conds(tier, seed):
 FAMILIES = [
     Family('law', body_law, ['law', 'param', 'backing', 'n', 'prefix'], XP + QP + RP + [('i', 'int')], _conds, timeout=dict(quick=150, thorough=300),
            desc='both sides of a law built from real code and observed identically'),
+    Family('tile_shuffle', body_tile_shuffle, ['backing', 'n', 'reps'], [(f'r{i}', 'int') for i in range(9)],
+           lambda tier, seed: [(b, n, r) for b in ('list', 'dict') for n in (0, 1, 2, 3) for r in (1, 2, 3) if n * r <= 9 and not (n == 0 and r > 1)],
+           timeout=dict(quick=120, thorough=600), desc='tile(r, shuffle=True) == concatenate(r one-time shuffles) under the same generator state'),
     Family('slice_compose', body_slice_compose, ['backing', 'n', 'f1', 'f2'], [(f'x{i}', 'int') for i in range(4)] + [(c, 'int') for c in 'abcd'] + [('i', 'int')],
            _sc_conds, timeout=dict(quick=240, thorough=900), desc='nested slices compose like list slices'),
 ]
